@@ -42,7 +42,12 @@ EXPLANATION = (
     "hostile archives (unknown/duplicate/non-file members, junk, missing manifest keys) and tampered/truncated blobs. "
     "Search: round-trip, wrong-password, clear-text-scan, structure and per-deployment decomposition monitors on the real code; "
     "a round-trip failure is classified by an independent look at the archive (tarfile + PyYAML/json + the stand-in cipher, not "
-    "the reader): which stored member is missing / unreadable / different / a proper prefix of the serialised input. Values the "
+    "the reader): which stored member is missing / unreadable / different / a proper prefix of the serialised input -- or that the "
+    "archive holds everything intact and only the reader lost it -- and by the size class of the members involved. Large members "
+    "(secret values, spec fields, annotations of about 64 KiB, 1 MiB, 2 MiB and exactly at / one byte above / well above every "
+    "integer of the backup modules that could be a size bound, re-read on every run; PEM-like text, one unbroken token, 2/3/4-byte "
+    "characters that YAML escapes, folded prose, thousands of small keys) go through writer, reader, model and monitors on every "
+    "tier; C33_size_agnostic pins that the archive layer has no length test, bounded read or size constant. Values the "
     "reader hands back are canonicalised totally (non-str keys, dates, bytes), and a scenario the harness cannot finish is "
     "reported with its input instead of ending the run."
 )
@@ -670,6 +675,10 @@ def monitor_backup(I: Impl, case: dict, deps: list[dict], secrets: dict, gens: d
     kind, r = results.get(repr(pw), ("missing", None))
     if kind != "ok":
         fact, detail = stored_fact(("cr", "secret", "generation"))
+        largest = max((len(b) for _n, b in real_members), default=0)
+        if largest >= 64 * KIB:
+            fact += f",member={size_class(largest)}"
+            detail += f" (largest member: {largest} bytes)"
         out.violations.append(Violation(f"C33/roundtrip[read_fails:{r},pw={pc}{fact}]",
                                         f"archive written with password class {pc} cannot be read back with the same password: {r}{detail}", case))
     else:
@@ -690,17 +699,17 @@ def monitor_backup(I: Impl, case: dict, deps: list[dict], secrets: dict, gens: d
             affected = sorted(n for n in set(gd) | set(xd) if gd.get(n) != xd.get(n))
             mine = [(m, len(b)) for m, b in real_members if any(m.startswith(n + ".") for n in affected)]
             largest = max((sz for _m, sz in mine), default=0)
+            if not detail and not any(v[0] == "?" for v in stored_bad):
+                fact += ",stored=intact"
+                detail = (" -- the archive itself holds every backed-up piece intact (independent look with tarfile + PyYAML/json"
+                          + ("" if pw is None else " + the stand-in cipher") + "); members of the affected deployment(s): "
+                          + ", ".join(f"{m}={sz} bytes" for m, sz in mine[:8]))
             if what == "entry_count":
                 fact += ",restored=" + ("fewer" if len(got) < len(exp) else "more")
             elif what in ("secret", "generation"):
                 k = 2 if what == "secret" else 3
                 if any(n in gd and n in xd and gd[n][k] is None and xd[n][k] is not None for n in affected):
                     fact += ",restored=none"
-            if not detail and not any(v[0] == "?" for v in stored_bad):
-                fact += ",stored=intact"
-                detail = (" -- the archive itself holds every backed-up piece intact (independent look with tarfile + PyYAML/json"
-                          + ("" if pw is None else " + the stand-in cipher") + "); members of the affected deployment(s): "
-                          + ", ".join(f"{m}={sz} bytes" for m, sz in mine[:8]))
             if largest >= 64 * KIB:
                 fact += f",member={size_class(largest)}"
             if len(got) != len(exp):
@@ -1298,7 +1307,9 @@ def run(env: Env) -> Outcome:
     out = Outcome()
     out.rule = ("backups: 0-5 deployments (name pools with suffix look-alikes, boundary lengths, random DNS-1035 labels; ill-formed "
                 "names in a separate stream) x JSON-like resources (free-text labels / display-name / description annotations incl. non-ASCII) x secret maps (marker + Unicode/control/YAML-special strings) x "
-                "generation maps x passwords (none, empty, ASCII, Unicode, 5000 chars) x reader passwords; hostile archives; "
+                "generation maps x passwords (none, empty, ASCII, Unicode, 5000 chars) x reader passwords; large members (one or two "
+                "values of 32 KiB..4 MiB per backup: around 64 KiB / 1 MiB / 2 MiB and around size constants of the source; shapes pem, "
+                "ascii, latin, cjk, emoji, words, mixed, map; in secrets, spec, annotations; 8 on quick, 41 on thorough); hostile archives; "
                 "encrypt/decrypt blobs (plain, wrong password, bit flips, truncations, junk). non-trivial = backup with a secret or "
                 "generation / hostile archive read successfully / blob decrypted; distinct by canonical case")
     I = Impl()
